@@ -45,22 +45,7 @@ def canon (x : EI) : Bool := noLeadingZeroB x.limbs
 /-- input class of one operator application, on the model states of its operands. Empty = the pinned code
     is expected to be right there. -/
 def stepClass (w : Nat) (op : String) (a b : EI) (k : Nat) : String :=
-  if !(canon a && canon b) then "eint.state.leading-zero-limb"
-  else match op with
-  | "sub" => if a.sign && !a.limbs.isEmpty && !b.sign then "eint.sub.negative-lhs" else ""
-  | "div" =>
-    match (reduce w a b).path with
-    | .knuth => "eint.divrem.multi-limb-divisor"
-    | .single => if a.sign != b.sign then "eint.div.sign.single-limb-divisor" else ""
-    | _ => ""
-  | "rem" =>
-    match (reduce w a b).path with
-    | .knuth => "eint.divrem.multi-limb-divisor"
-    | .single => if a.sign && toNat w a.limbs % toNat w b.limbs != 0 then "eint.rem.sign" else ""
-    | .native => if a.sign && toNat w a.limbs % toNat w b.limbs != 0 then "eint.rem.sign" else ""
-    | _ => ""
-  | "shr" => if k ≥ w && k ≤ a.limbs.length * w && a.limbs.length < 2 * (k / w) then "eint.shr.block-move" else ""
-  | "cmp" => if a.sign || b.sign then "eint.cmp.sign-blind" else ""
+  match op with
   | _ => ""
 
 def lenClass (a b : EI) : String :=
@@ -219,9 +204,6 @@ def unpadded (x : ED) : Bool := x.d.length ≤ 1 || x.d.getLast? != some 0
 def stepClass (op : String) (a b : ED) : String :=
   if !(unpadded a && unpadded b) || (a.neg && isZero a) || (b.neg && isZero b) then "edec.state.padded-or-negative-zero"
   else match op with
-  | "rem" => if a.neg && EDec.toNat b.d != 0 && EDec.toNat a.d % EDec.toNat b.d == 0 then "edec.rem.negative-zero" else ""
-  | "shl" => if isZero a then "edec.shl.zero" else ""
-  | "neg" => if isZero a then "edec.neg.zero" else ""
   | _ => ""
 
 def applyOp (op : String) (a b : ED) (k : Nat) : Option ED :=
